@@ -12,8 +12,8 @@
 using namespace vf;
 
 static const char *feat(int i) {
-  static const char *n[] = {"n_ge_64", "present_key", "absent_key", "correct_hint_lower_bound", "correct_hint_upper_bound", "smallset_inline", "n_ge_512"};
-  return i < 7 ? n[i] : 0;
+  static const char *n[] = {"n_ge_64", "present_key", "absent_key", "correct_hint_lower_bound", "correct_hint_upper_bound", "smallset_inline", "n_ge_512", "smallset_large_over_flatset"};
+  return i < 8 ? n[i] : 0;
 }
 static int ceil_log2(unsigned long n) {
   int k = 0;
@@ -30,6 +30,7 @@ static void flat_case(const char *name, long n) {
   char key[128];
   snprintf(key, sizeof key, "flatset %s n=%ld", name, n);
   if (!enum_begin(key)) return;
+  ledgers_reset();
   ModelCmp mc = CmpTraits<Cmp>::model(Cmp());
   const int step = 2 * mc.div;  // distinct equivalence classes: values step*i + step/2 ... keep gaps for absent keys
   const unsigned long long B = 2ull * ceil_log2(static_cast<unsigned long>(n + 1)) + 4;
@@ -108,6 +109,7 @@ static void wide_case(const char *name, long n, int width) {
   char key[128];
   snprintf(key, sizeof key, "flatset %s n=%ld wide-key width=%d", name, n, width);
   if (!enum_begin(key)) return;
+  ledgers_reset();
   const unsigned long long B = 2ull * ceil_log2(static_cast<unsigned long>(n + 1)) + 4;
   if (n >= 64) feature(0);
   {
@@ -139,6 +141,7 @@ static void small_case(const char *name, long fill) {
   char key[128];
   snprintf(key, sizeof key, "smallset %s N=%ld fill=%ld", name, N, fill);
   if (!enum_begin(key)) return;
+  ledgers_reset();
   feature(5);
   {
     S s;
@@ -175,14 +178,51 @@ static void small_case(const char *name, long fill) {
   enum_end(fill >= 2);
 }
 
+// SmallSet over a FlatSet in its large state: lookups go to the FlatSet and keep its logarithmic bound
+template <class S>
+static void large_small_case(const char *name, long n) {
+  typedef typename S::value_type E;
+  char key[128];
+  snprintf(key, sizeof key, "smallset(large) %s n=%ld", name, n);
+  if (!enum_begin(key)) return;
+  ledgers_reset();
+  const unsigned long long B = 2ull * ceil_log2(static_cast<unsigned long>(n + 1)) + 4;
+  if (n >= 64) feature(0);
+  feature(7);
+  {
+    S s;
+    for (long i = 0; i < n; ++i) s.emplace(static_cast<int>(2 * ((i * 7919) % n) + 1));
+    if (static_cast<long>(s.size()) != n) violation(P19, "setup: size %ld != %ld", static_cast<long>(s.size()), n);
+    const S &cs = s;
+    for (long r = 0; r <= 2 * n + 1 && !failed(); ++r) {
+      E k(ET<E>::make(static_cast<int>(r)));
+      unsigned long long c0;
+      ++g_probes;
+      feature((r % 2) ? 1 : 2);
+      COUNTED(cs.find(k), "SmallSet::find (large, FlatSet)");
+      COUNTED(cs.contains(k), "SmallSet::contains (large, FlatSet)");
+      COUNTED(cs.count(k), "SmallSet::count (large, FlatSet)");
+    }
+  }
+  enum_end(n >= 64);
+}
+
 template <class S>
 static void run_flat(const char *name) {
   const bool thorough = est().thorough;
-  for (long n = 0; n <= 300; ++n) flat_case<S>(name, n);
-  for (long p = 512; p <= (thorough ? 4096 : 1024); p *= 2) {
+  // tracked element types register every live object: their sizes stay below the registry's capacity
+  const long pmax = thorough ? (ET<typename S::value_type>::tracked ? 4096 : 65536) : (ET<typename S::value_type>::tracked ? 1024 : 4096);
+  for (long n = 0; n <= (thorough ? 2000 : 400); ++n) flat_case<S>(name, n);
+  for (long p = thorough ? 2048 : 512; p <= pmax; p *= 2) {
     flat_case<S>(name, p - 1);
     flat_case<S>(name, p);
     flat_case<S>(name, p + 1);
+  }
+  // sizes derived from the seed
+  unsigned long long x = est().seed * 6364136223846793005ull + 1442695040888963407ull;
+  for (int q = 0; q < (thorough ? 16 : 4); ++q) {
+    x = x * 6364136223846793005ull + 1442695040888963407ull;
+    flat_case<S>(name, (thorough ? 2001 : 401) + static_cast<long>((x >> 33) % (thorough ? (ET<typename S::value_type>::tracked ? 2000ull : 30000ull) : 1600ull)));
   }
 }
 template <class E, long N>
@@ -210,6 +250,13 @@ int main(int argc, char **argv) {
       wide_case<TS>("transparent/amc::vector/int", ns[a], 64);
       wide_case<TS>("transparent/amc::vector/int", ns[a], 100000);
     }
+  }
+  {
+    typedef amc::SmallSet<I, 4, CLess<I>, AStd<I>, amc::FlatSet<I, CLess<I>, AStd<I>, amc::vector<I, AStd<I> > > > LS;
+    static const long ns[] = {5, 6, 9, 17, 64, 100, 255, 256, 257, 1000};
+    for (unsigned a = 0; a < 10; ++a) large_small_case<LS>("int,4/flat", ns[a]);
+    if (est().thorough)
+      for (long n = 5; n <= 600; ++n) large_small_case<LS>("int,4/flat", n);
   }
   run_small<I, 1>("int");
   run_small<I, 2>("int");
